@@ -51,6 +51,22 @@ def run(ctx: Ctx):
         first = r.value.elts[0] if isinstance(r.value, ast.Tuple) and r.value.elts else r.value
         d = data(fd.deps_of(first))
         ok = bool(d & {"field:slotTaskUsage", "field:slotStartOffset", "field:slotSecondsUsed"})
+        # ... through a term that is the position of the task's portion (independent of the effort still needed)
+        if ok:
+            from .c01 import _signed_terms
+            from ..order import local_resolver
+            res_ = local_resolver(prec.node)
+            pos_terms = 0
+            for asg in [n_ for n_ in own_nodes(prec) if isinstance(n_, ast.Assign) and norm(n_.targets[0]) == norm(first)]:
+                br = next((b for (i, b) in __import__("spverif.rules.common", fromlist=["enclosing_ifs"]).enclosing_ifs(asg, prec.node)
+                           if norm(i.test) == "forward"), None)
+                if br != "T":
+                    continue
+                for sign, term in _signed_terms(asg.value):
+                    td = data(fd.deps_of(term))
+                    if td & {"field:slotTaskUsage", "field:slotStartOffset", "field:slotSecondsUsed"} and "param:required_effort" not in td:
+                        pos_terms += 1
+            ok = pos_terms > 0
         n += 1
         ctx.ob("R06.1", f"{prec.qual}: returned end {norm(first)}", (prec, r), ok,
                "precise end depends on the in-slot position of this task's portion" if ok else
